@@ -42,6 +42,12 @@ func main() {
 			die(err)
 		}
 		write("Routing.lean", s)
+	case "access":
+		s, err := extractAccess(repo)
+		if err != nil {
+			die(err)
+		}
+		write("Access.lean", s)
 	default:
 		die(fmt.Errorf("unknown target %q", what))
 	}
